@@ -325,6 +325,22 @@ def run(ctx: Ctx) -> int:
             inputs.append(("target-line", f"from Reduino import target\ntarget({q}{longport}{q}){tail}\nfrom Reduino.Actuators import Led\nled = Led(13)\n", None))
             inputs.append(("target-line", f"from Reduino import target\ntarget({q}{longport}{q}{tail}\nled = 1\n", None))
             inputs.append(("target-line", f"from Reduino import target\nport = target({q}{longport} {longport}{q}){tail}\n", None))
+    # ---- pumped near-misses of the line shapes the front end recognises by regular expression: an opener it knows, a long run of a repeated
+    # separator-bearing unit, and no closing bracket — bare (not Python), inside a string literal and inside a trailing comment (both valid Python).
+    # Every line of a script is tried against the directive and statement patterns, so a pattern with nested repetition shows up as a timeout.
+    openers = ["target(", "target(COM3", "target('COM3'", "led = Led(", "led.blink(", "led.flash_pattern([", "rgb.fade(", "lcd.message(", "bz.sweep(", "arm = Servo(",
+               "for i in range(", "mon.write(", "sleep(", "x = max(", "def f(", "if (", "while (", "mon.write(f\"{", "x = [", "btn = Button(7, on_click=", "lcd.glyph(0, ["]
+    pumps = [", 1", " , a=1", "  ", "((", ", 'a'", ", [1", " x", ",", "\\\"", "{1}", "1 + ", ", COM3"]
+    decl = ("led = Led(13)\nrgb = RGBLed(9, 10, 11)\nlcd = LCD(rs=12, en=11, d4=5, d5=4, d6=3, d7=2)\nbz = Buzzer(8)\nmon = SerialMonitor(9600)\n")
+    combos = [(o, u) for o in openers for u in pumps]
+    if not (ctx.tier == "thorough" or ctx.broken):
+        combos = [c for c in combos if c[0].startswith("target(")] + rng.sample(combos, 40)
+    for o, u in combos:
+        body = o + u * 28
+        inputs.append(("pumped", scripts_pool.HEADER + decl + body + "\n", None))
+        if '"' not in body:
+            inputs.append(("pumped", scripts_pool.HEADER + decl + 'usage = "' + body + '"\nmon.write(usage)\n', None))
+        inputs.append(("pumped", scripts_pool.HEADER + decl + "led.on()  # " + body + "\nwhile True:\n    led.toggle()  # " + body + "\n", None))
     inputs.append(("python", scripts_pool.HEADER + "mon = SerialMonitor(9600)\nc = 1\nif c > 0:\n    al\u00e9 = 1\nmon.write(c)\n", None))
     inputs.append(("python", scripts_pool.HEADER + "mon = SerialMonitor(9600)\nwhile True:\n    mon.write(digital_read(7)\n              + analog_read(\"A1\"))\n", None))
     for v in VALID_PYTHON:
